@@ -1,6 +1,7 @@
 ------------------------------- MODULE Cases -------------------------------
 (* Case generator for C31 (TLC breadth-first, exhaustive for the listed domain):     *)
-(* issue context x presenting context (each component same / different) x time       *)
+(* issue context x presenting context (each component same / different, and every   *)
+(* way of differing for one component at a time) x time                              *)
 (* offset at every boundary of the validity window x sub-second part of the issue    *)
 (* time x damage kind x length class of the original destination connection id x    *)
 (* address family.  Every case is one state; the invariant checks the property on   *)
@@ -27,27 +28,42 @@ Fams == {"v4", "v6"}
 
 Delta(o, V) == [s |-> o[1] * V + o[2], ns |-> o[3]]
 
-Case(same, dmg, o, fr, ol, fam) ==
-    [k |-> "retry", same |-> same, dmg |-> dmg, dm |-> o[1], ds |-> o[2], dns |-> o[3],
+Case(ctx, dmg, o, fr, ol, fam) ==
+    [k |-> "retry", ctx |-> ctx, dmg |-> dmg, dm |-> o[1], ds |-> o[2], dns |-> o[3],
      ifrac |-> fr, olen |-> ol, fam |-> fam]
+
+With(n, v) == [SameCtx EXCEPT ![n] = v]
+\* one component differing, in every way it can (address variants that need an IPv4 issue
+\* only there)
+Singles(fam) ==
+    {With("key", "other")} \cup {With("scid", v) : v \in ScidV \ {"same"}}
+    \cup {With("dcid", v) : v \in DcidV \ {"same"}}
+    \cup {With("ip", v) : v \in (IF fam = "v4" THEN IpV ELSE {"other", "flip"}) \ {"same"}}
+    \cup {With("port", v) : v \in PortV \ {"same"}}
+\* every combination of same / different components (the plainest variant of each)
+Basic(s) == [key |-> IF "key" \in s THEN "same" ELSE "other", scid |-> IF "scid" \in s THEN "same" ELSE "flip",
+             dcid |-> IF "dcid" \in s THEN "same" ELSE "flip", ip |-> IF "ip" \in s THEN "same" ELSE "other",
+             port |-> IF "port" \in s THEN "same" ELSE "lowbit"]
 
 CasesRetry ==
     \* (A) same context, undamaged: the whole time grid
-    {Case(Components, "none", o, fr, ol, fam) : o \in Offsets, fr \in Fracs, ol \in OdcidLens, fam \in Fams}
+    {Case(SameCtx, "none", o, fr, ol, fam) : o \in Offsets, fr \in Fracs, ol \in OdcidLens, fam \in Fams}
     \* (B) every combination of same / different components, inside and at the edge of the window
-    \cup {Case(s, "none", o, 0, 8, fam) : s \in SUBSET Components, o \in FewOffsets, fam \in Fams}
+    \cup {Case(Basic(s), "none", o, 0, 8, fam) : s \in SUBSET Components, o \in FewOffsets, fam \in Fams}
+    \* (B') one component differing in each of its ways (near misses: prefixes, zero padding, ...)
+    \cup UNION {{Case(x, "none", o, 0, 8, fam) : x \in Singles(fam), o \in FewOffsets} : fam \in Fams}
     \* (C) every damage kind in the right context
-    \cup {Case(Components, dmg, o, fr, ol, "v4") : dmg \in Damages, o \in FewOffsets, fr \in {0, 999999999}, ol \in OdcidLens}
+    \cup {Case(SameCtx, dmg, o, fr, ol, "v4") : dmg \in Damages, o \in FewOffsets, fr \in {0, 999999999}, ol \in OdcidLens}
     \* (D) damage and a wrong component together
-    \cup {Case(Components \ {x}, dmg, <<0, 0, 0>>, 0, 8, "v4") : x \in Components, dmg \in Damages \ {"none"}}
+    \cup {Case(Basic(Components \ {x}), dmg, <<0, 0, 0>>, 0, 8, "v4") : x \in Components, dmg \in Damages \ {"none"}}
 
 Groups == {"A4", "A6", "B", "C", "D"}
 InGroup(x, g) ==
-    CASE g = "A4" -> x.same = Components /\ x.dmg = "none" /\ x.fam = "v4"
-      [] g = "A6" -> x.same = Components /\ x.dmg = "none" /\ x.fam = "v6"
-      [] g = "B"  -> x.same # Components /\ x.dmg = "none"
-      [] g = "C"  -> x.same = Components /\ x.dmg # "none"
-      [] g = "D"  -> x.same # Components /\ x.dmg # "none"
+    CASE g = "A4" -> x.ctx = SameCtx /\ x.dmg = "none" /\ x.fam = "v4"
+      [] g = "A6" -> x.ctx = SameCtx /\ x.dmg = "none" /\ x.fam = "v6"
+      [] g = "B"  -> x.ctx # SameCtx /\ x.dmg = "none"
+      [] g = "C"  -> x.ctx = SameCtx /\ x.dmg # "none"
+      [] g = "D"  -> x.ctx # SameCtx /\ x.dmg # "none"
 
 Init == c \in [k : {"grp"}, g : Groups]
 Next == c.k = "grp" /\ c' \in {x \in CasesRetry : InGroup(x, c.g)}
@@ -57,14 +73,15 @@ D(x) == Delta(<<x.dm, x.ds, x.dns>>, Vmodel)
 
 Lemma == c.k = "grp" \/
     /\ IsDelta(D(c))
-    /\ AcceptedOnlyInContext(c.same, c.dmg, D(c), Vmodel)
-    /\ Expected(c.same, c.dmg, D(c), Vmodel) \in {"yes", "no", "any"}
+    /\ c.ctx \in Contexts
+    /\ AcceptedOnlyInContext(c.ctx, c.dmg, D(c), Vmodel)
+    /\ Expected(c.ctx, c.dmg, D(c), Vmodel) \in {"yes", "no", "any"}
     \* the classes do not depend on the value of V (checked for a second value)
-    /\ Expected(c.same, c.dmg, Delta(<<c.dm, c.ds, c.dns>>, Vmodel + 7), Vmodel + 7) = Expected(c.same, c.dmg, D(c), Vmodel)
+    /\ Expected(c.ctx, c.dmg, Delta(<<c.dm, c.ds, c.dns>>, Vmodel + 7), Vmodel + 7) = Expected(c.ctx, c.dmg, D(c), Vmodel)
 
-Out(x) == [k |-> "retry", same |-> [n \in Components |-> n \in x.same], dmg |-> x.dmg, dm |-> x.dm, ds |-> x.ds,
+Out(x) == [k |-> "retry", ctx |-> x.ctx, dmg |-> x.dmg, dm |-> x.dm, ds |-> x.ds,
            dns |-> x.dns, ifrac |-> x.ifrac, olen |-> x.olen, fam |-> x.fam,
-           exp |-> Expected(x.same, x.dmg, D(x), Vmodel)]
+           exp |-> Expected(x.ctx, x.dmg, D(x), Vmodel)]
 
 Export == c.k = "grp" \/ PrintT(<<"CASE", ToJson(Out(c))>>)
 =============================================================================
